@@ -50,7 +50,8 @@ FAM = {
     "legacy_field": dict(derives=["Deref", "DerefMut"], item="struct S {{ {A} a: Vec<u8>, b: u8 }}", name="{n}", atoms={
         "sel": "", "ignore": "(ignore)", "forward": "(forward)", "unknown": "(frobnicate)", "eq_value": ' = "x"',
         "name_value": "(forward = true)", "lit_param": '("forward")', "not_foreign": "(not(source))", "not_unneg": "(not(ignore))",
-        "dup_flag": "(forward, forward)", "contra_flag": "(forward, not(forward))"}),
+        "dup_flag": "(forward, forward)", "contra_flag": "(forward, not(forward))", "contra_flag_rev": "(not(forward), forward)",
+        "dup_not": "(not(forward), not(forward))"}),
     "legacy_forms": dict(derives=["IntoIterator", "TryInto", "Unwrap", "TryUnwrap"], item=None, name="{n}", atoms={
         "owned": "(owned)", "ref": "(ref)", "ref_mut": "(ref_mut)", "owned_ref": "(owned, ref)", "all3": "(owned, ref, ref_mut)", "unknown": "(frobnicate)",
         "list_param": "(owned(i32))", "name_value": "(owned = true)", "not_foreign": "(not(forward))", "not_unneg": "(not(owned))", "dup_flag": "(owned, ref, owned)"}),
@@ -59,7 +60,8 @@ FAM = {
     "error_field": dict(derives=["Error"], item="struct S {{ {A} a: Inner, b: u8 }}", name="error", atoms={
         "source": "(source)", "not_source": "(not(source))", "backtrace": "(backtrace)", "ignore": "(ignore)", "source_backtrace": "(backtrace, source)",
         "unknown": "(frobnicate)", "nested_not": "(not(not(source)))", "not_unknown": "(not(frobnicate))", "list_param": "(source(x))",
-        "not_foreign": "(not(forward))", "not_unneg": "(not(ignore))", "dup_flag": "(source, source)", "contra_flag": "(source, not(source))"}),
+        "not_foreign": "(not(forward))", "not_unneg": "(not(ignore))", "dup_flag": "(source, source)", "contra_flag": "(source, not(source))", "contra_flag_rev": "(not(source), source)",
+        "dup_not": "(not(source), not(source))"}),
 }
 ATTRNAME = {"IsVariant": "is_variant", "Display": "display", "Debug": "debug", "AsRef": "as_ref", "AsMut": "as_mut", "Deref": "deref", "DerefMut": "deref_mut",
             "IntoIterator": "into_iterator", "TryInto": "try_into", "Unwrap": "unwrap", "TryUnwrap": "try_unwrap"}
